@@ -243,6 +243,13 @@ func (x *Exec) initGhosts(st *State) {
 		if _, clash := x.ParamVals[g.LHS]; clash {
 			x.fail("ghost %s clashes with a parameter", g.LHS)
 		}
+		for _, b := range x.Fn.Blocks {
+			for _, ins := range b.Instrs {
+				if a, ok := ins.(*ssa.Alloc); ok && a.Comment == g.LHS {
+					x.fail("ghost %s clashes with a local variable of the function", g.LHS)
+				}
+			}
+		}
 	}
 	env := &Env{X: x, St: st, Old: st, Vars: vars, OldVars: x.ParamVals, FC: x.FC, PkgPath: x.Pkg}
 	x.runGhosts(st, env, "entry")
